@@ -437,7 +437,7 @@ pub fn check_code(code: &[u8], permissive: bool, use_ref: bool, acc: &mut Acc) -
 
 fn run_shard(ctx: &ShardCtx, acc: &mut Acc) {
     let tier = ctx.tier;
-    drive(ctx, "keys", tier.pick(25_000, 300_000), 900, acc, &|ch, acc| {
+    drive(ctx, "keys", tier.pick(75_000, 400_000), 900, acc, &|ch, acc| {
         let permissive = ch.chance(1, 4);
         let (code, use_ref): (Vec<u8>, bool) = match ch.below(10) {
             0..=4 => (g_keys(ch, acc).code(), true),
